@@ -318,7 +318,9 @@ def mkdirFrom (env : Env) (perm : Nat) (handle : Fd) (remaining : Option Bytes) 
 /-- `mkdir_all` -/
 def mkdirAll (env : Env) (root : Root) (path : Bytes) (perm : Nat) : M Fd :=
   if clearBits perm 0o7777 ≠ 0 then throw .invalidArgument else
-  if clearBits perm 0o1777 ≠ 0 then throw .invalidArgument else do
+  if clearBits perm 0o1777 ≠ 0 then throw .invalidArgument else
+  -- the empty path names nothing (not even the root)
+  if path = [] then throw (.os ENOENT) else do
   let (handle, remaining) ← partialTarget env root path
   mkdirFrom env perm handle remaining
 
